@@ -18,6 +18,9 @@ TD64_MAX = 86399999913599999  # (timedelta.max - 1 day) in ms, kio's documented 
 DT_MAX = 253402300799999  # 9999-12-31T23:59:59.999Z in ms
 STR_LENGTHS_SMALL = (0, 1, 2, 5, 126, 127, 128)
 STR_LENGTHS_BIG = (16383, 16384)
+BYTES_LENGTHS_HUGE = (65537, 1048577)  # beyond typical chunking thresholds (64 KiB, 1 MiB)
+BIG_LABELS = tuple(f"len{n}" for n in STR_LENGTHS_BIG + BYTES_LENGTHS_HUGE)
+ARRAY_BOUNDARY_CELLS = ("n127", "n128")  # compact array length varint goes from one to two bytes
 CHARS = ("a", "z", "0", " ", "é", "ß", "€", "한", "𝄞", "😀", "\x00", "\x7f")
 
 _error_codes: list[int] | None = None
@@ -83,7 +86,7 @@ def _pool_labels(ktype: str, domain: str) -> list[str]:
     if ktype == "string":
         return [f"len{n}" for n in STR_LENGTHS_SMALL + STR_LENGTHS_BIG] + ["ascii"]
     if ktype in ("bytes", "records"):
-        return [f"len{n}" for n in STR_LENGTHS_SMALL + STR_LENGTHS_BIG] + ["rand"]
+        return [f"len{n}" for n in STR_LENGTHS_SMALL + STR_LENGTHS_BIG + BYTES_LENGTHS_HUGE] + ["rand"]
     raise NotImplementedError(ktype)
 
 
@@ -144,13 +147,14 @@ class Gen:
         self.unknown_tags = unknown_tags
         self.max_items = max_items
         self.big_prob = big_prob
+        self._lean = 0  # > 0 while generating the items of a long array: nested arrays stay short, payloads small
         self.cells_hit: set[tuple[str, str, str]] = set()
         self.stats = {"unknown_tags": 0, "explicit_defaults": 0, "nondefault_tags": 0, "unknown_by_depth": {}}
 
     # ----- cells ------------------------------------------------------------------
     def cells(self, fs: FieldSpec) -> list[str]:
         if fs.array:
-            out = ["empty", "one", "many"] + (["null"] if fs.nullable else [])
+            out = ["empty", "one", "many"] + list(ARRAY_BOUNDARY_CELLS) + (["n16383"] if fs.kind == "prim" else []) + (["null"] if fs.nullable else [])
         elif fs.kind == "struct":
             out = ["value"] + (["null"] if fs.nullable else [])
         else:
@@ -164,8 +168,10 @@ class Gen:
     def _small_label(self, ktype: str) -> str:
         labs = _pool_labels(ktype, self.domain)
         if ktype in ("string", "bytes", "records"):
-            if self.rng.random() >= self.big_prob:
-                labs = [lab for lab in labs if lab not in ("len16383", "len16384")]
+            if self._lean or self.rng.random() >= self.big_prob:
+                labs = [lab for lab in labs if lab not in BIG_LABELS]
+            else:
+                labs = [lab for lab in labs if lab != "len1048577"]
         return self.rng.choice(labs)
 
     def prim(self, fs: FieldSpec, label: str | None = None, allow_null: bool = True) -> object:
@@ -192,14 +198,25 @@ class Gen:
         if cell == "null":
             return None
         if fs.array:
-            n = {"empty": 0, "one": 1, "many": self._count(depth)}[cell]
-            return [self._item(fs, depth) for _ in range(n)]
+            if cell in ("empty", "one", "many"):
+                n = {"empty": 0, "one": 1, "many": self._count(depth)}[cell]
+                return [self._item(fs, depth) for _ in range(n)]
+            self._lean += 1
+            try:
+                return [self._item(fs, depth) for _ in range(int(cell[1:]))]
+            finally:
+                self._lean -= 1
         if fs.kind == "struct":
             return self.struct(fs.struct, depth + 1)
         return self.prim(fs, cell[2:])
 
     def random_cell(self, fs: FieldSpec, depth: int) -> str:
         cells = self.cells(fs)
+        if fs.array:
+            long_ok = depth == 0 and not self._lean and self.rng.random() < 0.04
+            cells = [c for c in cells if not c.startswith("n1") or (long_ok and c != "n16383")]
+            if self._lean:
+                cells = [c for c in cells if c != "many"]
         if fs.array and depth >= 3:
             cells = [c for c in cells if c != "many"]
         if fs.kind == "prim" and not fs.array:
@@ -267,6 +284,17 @@ class Gen:
             out.append(self.struct(spec, 0, forced))
         for _ in range(extra_random):
             out.append(self.struct(spec, 0))
+        return out
+
+    def huge_payload_trees(self, spec: StructSpec, label: str = "len65537") -> list[dict]:
+        """One tree per direct bytes/records field with a payload beyond typical chunking thresholds."""
+        out = []
+        for fs in spec.fields:
+            if fs.kind == "prim" and fs.ktype in ("bytes", "records") and not fs.array:
+                tree = self.struct(spec)
+                tree[fs.name] = pool_value(self.rng, fs.ktype, label)
+                self.cells_hit.add((spec.name, fs.name, "p:" + label))
+                out.append(tree)
         return out
 
     def total_cells(self, spec: StructSpec) -> int:
